@@ -169,6 +169,17 @@ def run_cases(plain, cases_, workdir, tag):
         same = (a.get("result"), a.get("text"), (a.get("err") or {}).get("variant")) == \
                (b.get("result"), b.get("text"), (b.get("err") or {}).get("variant"))
         a["twin_same"] = b["twin_same"] = same
+    # the same calls in a process whose environment looks like a documentation / CI build: the answers must be the same
+    idx = [i for i, c in enumerate(cases_) if c["family"] in ("semantically_invalid", "capability_sets", "mention_only")]
+    if idx and "search" not in tag:
+        env = {"DOCS_RS": "1", "CI": "true", "PROFILE": "release", "DEBUG": "false", "RUST_LOG": "trace", "CARGO_CFG_TARGET_OS": "windows",
+               "WGSL_TO_WGPU_SKIP_VALIDATION": "1", "NO_COLOR": "1"}
+        eres = run_driver([plain[i] for i in idx], workdir, tag + "_env", env=env)
+        for i, er in zip(idx, eres):
+            a = res[i]
+            if (a.get("result"), (a.get("err") or {}).get("variant"), a.get("text")) != (er.get("result"), (er.get("err") or {}).get("variant"), er.get("text")):
+                a["env_differs"] = "with DOCS_RS / CI / ... set the call returned %s %s instead of %s %s" % (
+                    er.get("result"), (er.get("err") or {}).get("variant"), a.get("result"), (a.get("err") or {}).get("variant"))
     for r in res:
         r.pop("text", None) if r.get("out") else None
     return res
@@ -176,6 +187,9 @@ def run_cases(plain, cases_, workdir, tag):
 
 def b_holds(c, r):
     """the property on the real outcome, against naga called directly"""
+    if r.get("env_differs"):
+        c["note"] = r["env_differs"]
+        return False
     v = c["opts"]["validate"]
     err = r.get("err") or {}
     if r.get("result") == "panic" and (not r.get("parse_ok") or (v and r.get("valid") is False)):
